@@ -30,6 +30,28 @@ func vcheckShape(log []vframe, msg []byte) int {
 	return off
 }
 
+// vShapeMon is the online form of vcheckShape: every frame is checked at the
+// moment it is handed to sendFunc (so frames of a message whose send() never
+// returns - a parked or cancelled sender - are checked, too).
+type vShapeMon struct {
+	msg    []byte
+	off    int
+	frames int
+}
+
+func (m *vShapeMon) frame(d []byte, total uint32, first bool) {
+	verifAssert(first == (m.frames == 0), "C01+C13.first-flag")
+	verifAssert(total == uint32(len(m.msg)), "C01+C13.size-field")
+	verifAssert(len(d) <= chunkMax, "C06+C13.chunk-max")
+	verifAssert(m.off+len(d) <= len(m.msg), "C01+C13.no-excess")
+	verifAssertBytesEq(d, m.msg[m.off:m.off+len(d)], "C01+C13.bytes")
+	if m.frames > 0 {
+		verifAssert(len(d) > 0, "C13.no-empty-continuation")
+	}
+	m.off += len(d)
+	m.frames++
+}
+
 // S-SEND-NOFC (C01, C11, C13): the revision-zero sender, every message length
 // up to chunks*16384+1, sendFunc failing at any call.
 func verifH_SendNoFC() {
@@ -78,8 +100,10 @@ func verifH_SendFC() {
 	granted = uint64(w0)
 	sendErr := errors.New("carrier send failed")
 	var snd sender
+	mon := &vShapeMon{msg: msg}
 	snd = newSender(ctx, w0, func(d []byte, total uint32, first bool) error {
 		calls++
+		mon.frame(d, total, first)
 		sent += uint64(len(d))
 		// C06: never more on the wire than the receiver granted
 		verifAssert(sent <= granted, "C06.sent-within-credit")
@@ -129,7 +153,7 @@ func verifH_SendFC() {
 	})
 	err := snd.send(msg)
 	verifOnSync(nil)
-	off := vcheckShape(log, msg)
+	off := mon.off
 	if err == nil {
 		verifAssert(off == len(msg), "C01+C13.complete")
 		verifAssert(len(log) >= 1, "C01+C13.envelope-even-when-empty")
